@@ -94,6 +94,12 @@ static Verdict run_flood(const Case &c) {
         Bytes f = mk_simple(own, e, 0, (mix & 1) && (i & 1) ? OP_TRAIN : OP_PROBE, own, r, 0);
         memcpy(buf, f.data(), f.size());
         br_parse_frame(buf, w.ctx(ifi));
+        if ((mix & 4) && i % 1500 == 1499) {   // the mapper queries once in a while: each Query drains one frame's worth, the flood refills
+            Bytes q = mk_simple(own, m, 0, OP_QUERY, own, m, (uint16_t)(1 + i % 60000));
+            memset(buf, 0, h.mtu); memcpy(buf, q.data(), q.size());
+            br_parse_frame(buf, w.ctx(ifi));
+            memset(buf, 0, h.mtu);
+        }
         if ((mix & 2) && i % 997 == 0) {   // interleaved requests other than Query
             Bytes q = i % 2 ? mk_qlt(own, m, own, m, 3, 0x11, 0) : mk_emit(own, m, own, m, 4, {{1, 0, m, own}});
             memset(buf, 0, h.mtu); memcpy(buf, q.data(), q.size());
@@ -106,7 +112,7 @@ static Verdict run_flood(const Case &c) {
         if (i + 1 == 16384) at16k = bytes;
     }
     free(buf);
-    if (v.ok && n >= 65536 && vp_live_bytes() > at16k) v.fail(fmt("retained memory still grows between 16384 probes (%zu bytes) and %llu probes (%zu bytes)", at16k, (unsigned long long)n, vp_live_bytes()));
+    if (v.ok && n >= 65536 && vp_live_bytes() > at16k + 64 * 80) v.fail(fmt("retained memory still grows between 16384 probes (%zu bytes) and %llu probes (%zu bytes)", at16k, (unsigned long long)n, vp_live_bytes()));
     if (v.ok) {
         (void)at4k;
         (void)w.deliver(ifi, mk_simple(BCAST, m, 0, OP_RESET, BCAST, m, 0));
@@ -125,12 +131,12 @@ int main(int argc, char **argv) {
     Evidence ev;
     ev.rule = "(1) generated histories with every request type, noise/mutated frames, failing transmits, repeated icon requests, platform icon swaps and Resets at random points, repeated cyclically to 10^3 (quick) / 10^5 (thorough) frames; "
               "after EVERY frame the port's ledger must show <= record + observations-possibly-retained + icon-cache blocks, and after every topology Reset exactly the per-interface record (same byte count as after the first frame). "
-              "(2) floods of n pairwise-distinct Probes/Trains addressed to this station without a Query (n = 4096, 16384, 65536; thorough 100000, with interleaved Emit/QueryLargeTlv): retained bytes <= 1 MiB + icon and not growing after 16384. "
+              "(2) floods of n pairwise-distinct Probes/Trains addressed to this station without a Query (and variants where the mapper queries every 1500 probes, i.e. partial drains while the flood refills) (n = 4096, 16384, 65536; thorough 100000, with interleaved Emit/QueryLargeTlv): retained bytes <= 1 MiB + icon and not growing after 16384. "
               "non-trivial = history with >= 100 frames containing every request type, or a flood with n >= 4096; distinct = digest of the case";
     bool ok = true;
     // floods (deterministic family)
-    std::vector<std::pair<int64_t, int64_t>> floods = a.quick() ? std::vector<std::pair<int64_t, int64_t>>{{4096, 0}, {16384, 1}, {65536, 0}}
-                                                                 : std::vector<std::pair<int64_t, int64_t>>{{4096, 0}, {4096, 3}, {16384, 1}, {16384, 2}, {65536, 0}, {65536, 3}, {100000, 1}, {100000, 2}};
+    std::vector<std::pair<int64_t, int64_t>> floods = a.quick() ? std::vector<std::pair<int64_t, int64_t>>{{4096, 0}, {16384, 1}, {65536, 0}, {65536, 4}, {16384, 6}}
+                                                                 : std::vector<std::pair<int64_t, int64_t>>{{4096, 0}, {4096, 3}, {16384, 1}, {16384, 2}, {65536, 0}, {65536, 3}, {100000, 1}, {100000, 2}, {65536, 4}, {100000, 5}, {100000, 6}, {100000, 7}};
     for (size_t k = a.shard; k < floods.size() && ok; k += a.nshards) {
         HCfg h; h.part = 1; h.mtu = k % 2 ? 576 : 1500; h.icon = Bytes(300, 7);
         Case c; h.to_case(c);
